@@ -108,7 +108,7 @@ func (g *gen) genFunc(typs []types.Type) error {
 	}
 	p.In()
 	if err := g.genStatement("object", typs[0]); err != nil {
-		return nil
+		return err
 	}
 	p.Out()
 	p.P("}")
